@@ -19,7 +19,7 @@ func init() {
 const ncbiTable1 = "FFLLSSSSYY**CC*WLLLLPPPPHHQQRRRRIIIMTTTTNNKKSSRRVVVVAAAADDEEGGGG"
 
 func rulesC14(c *Ctx, r *Report) {
-	r.explain("Decides: (T-CODON) the 64-entry codon table equals NCBI translation table 1 for every codon and no value is 0, nothing else writes it; (VSA-TR) Translate folds each codon byte by a transfer function T computed over all 256 bytes, the accepted codons are exactly T^-1(x) x T^-1(y) x T^-1(z) for table keys xyz, i.e. every mix of upper/lower case of ACGT and nothing else, with the panic on the `== 0` edge and the length panic dominating the loop; one table value is appended per codon, codons are src[i:i+3] for i = 0,3,6..; (T-AMINO/VSA-AN) aminoToName's keys are exactly the bytes of AminoAcids with non-empty names, and AminoName accepts exactly those letters in either case (256-point transfer function) and panics otherwise; (GRD) every slice in TranslateReadingFrames is within bounds for every length; frame i is Translate(nil, seq[min(i,len):] cut to a multiple of 3); (APPEND-ONLY) Translate only appends to dst and never writes src. Not decided: the concatenation law as an equality. Added: the len % 3 guard dominates every return (a return taken only for empty input excused); every byte appended is the value just looked up for the current codon; the case fold may live in a helper (by pointer or by value). (VSA-TR, extended) whether the case-fold loop runs does not depend on bytes of the codon buffer (exact path condition of the loop header): a fast path that inspects only some positions leaves codons with lower case elsewhere unfolded. (TR-PANICS) every path to an explicit panic of Translate takes the `len(src) % 3 != 0` edge or the table-miss edge.")
+	r.explain("Decides: (T-CODON) the 64-entry codon table equals NCBI translation table 1 for every codon and no value is 0, nothing else writes it; (VSA-TR) Translate folds each codon byte by a transfer function T computed over all 256 bytes, the accepted codons are exactly T^-1(x) x T^-1(y) x T^-1(z) for table keys xyz, i.e. every mix of upper/lower case of ACGT and nothing else, with the panic on the `== 0` edge and the length panic dominating the loop; one table value is appended per codon, codons are src[i:i+3] for i = 0,3,6..; (T-AMINO/VSA-AN) aminoToName's keys are exactly the bytes of AminoAcids with non-empty names, and AminoName accepts exactly those letters in either case (256-point transfer function) and panics otherwise; (GRD) every slice in TranslateReadingFrames is within bounds for every length; frame i is Translate(nil, seq[min(i,len):] cut to a multiple of 3); (APPEND-ONLY) Translate only appends to dst and never writes src. Not decided: the concatenation law as an equality. Added: the len % 3 guard dominates every return (a return taken only for empty input excused); every byte appended is the value just looked up for the current codon; the case fold may live in a helper (by pointer or by value). (VSA-TR, extended) whether the case-fold loop runs does not depend on bytes of the codon buffer (exact path condition of the loop header): a fast path that inspects only some positions leaves codons with lower case elsewhere unfolded. (TR-PANICS) every path to an explicit panic of Translate takes the `len(src) % 3 != 0` edge or the table-miss edge. TranslateReadingFrames has no explicit panic of its own.")
 	r.assume("the NCBI table-1 string embedded in the checker is the standard genetic code")
 	funcs := c.moduleFuncs()
 	p := c.pkg("sequtil")
